@@ -17,6 +17,16 @@ class RecSHA256(SHA256):
         self._words = None
         super().__init__(seed)
 
+    def __deepcopy__(self, memo):
+        """what copy.deepcopy does to a SHA256 (a new instance whose state is set from getstate()), but
+        the copy keeps appending to the *same* log, so draws made on deep copies stay visible"""
+        new = RecSHA256()
+        new.setstate(self.getstate())
+        new.log = self.log
+        self.log.append(("deepcopy",))
+        memo[id(self)] = new
+        return new
+
     # raw words
     def getrandbits(self, k):
         v = super().getrandbits(k)
@@ -126,7 +136,7 @@ class Draws:
     """cursor over a generator log, handing out model-level draws in the order they were made"""
 
     def __init__(self, log):
-        self.log = [e for e in log]
+        self.log = [e for e in log if e[0] != "deepcopy"]
         self.i = 0
 
     def rest(self):
